@@ -267,6 +267,14 @@ theorem exec_mem_outcomes (s : Stmt) : ∀ (o : List Bool) (h : Held),
       · simp only [if_true, List.mem_cons]; exact Or.inr (ihh _ _)
     · simp [hx]
 
+  | tryAll b hd ihb ihh =>
+    intro o h
+    simp only [exec, outcomes, mem_dedup, List.mem_flatMap]
+    refine ⟨((exec b o h).1, (exec b o h).2.1), ihb o h, ?_⟩
+    by_cases hx : (exec b o h).1 = .exc
+    · simp only [hx, if_true]; exact ihh _ _
+    · simp [hx]
+
 /-- every execution of `s` from nothing held ends holding exactly `left`, whenever the collected outcomes say so -/
 theorem balanced_of_outcomes (s : Stmt) (left : Held) (h : ∀ p ∈ outcomes s [], p.2 = left) :
     ∀ o : List Bool, (exec s o []).2.1 = left := fun o => h _ (exec_mem_outcomes s o [])
